@@ -184,6 +184,20 @@ over the `children` list (`document_node.children = root_node.children`), every 
 and the tree's `root_node` are switched to it, the dummy element is dropped. -/
 def replaceDummy (w : Node) : Node := docNode w.kids
 
+/-! ### `evaluate__path` with several trees in the dynamic context
+
+`_xpath30_functions.py :: evaluate__path` after b4af310: `root_node := item.root_node` (the root
+of the item's own tree) decides the form, `item.path` gives the steps; the context root `ctx` is
+not consulted.  Before that commit a node whose tree is not rooted at `context.root` got the
+empty sequence (`fnPathForestOld`). -/
+def fnPathForest (F : List Node) (_ctx : Nat) (t : Nat) (r : Ref) : Option (List Step) :=
+  match F[t]? with
+  | some top => pathOf top r
+  | none => none
+
+def fnPathForestOld (F : List Node) (ctx : Nat) (t : Nat) (r : Ref) : Option (List Step) :=
+  if t = ctx then fnPathForest F ctx t r else none
+
 /-! ### `etree_iter_paths` -/
 
 /-- the three counters of `etree_iter_paths` (`Counter` = function with default 0) -/
